@@ -56,7 +56,8 @@ IDENTS = ["a", "x", "foo-bar", "list->vector", "a.b", "a1", "!", "$?:!", "<=", "
 # names that stay plain under every option set of C02 (no leading '?'/digit/colon, no trailing colon, not nil/t)
 PORTABLE = [i for i in IDENTS if not (i[0] in "?:" or i.endswith(":") or i in ("nil", "t") or "?" in i)]
 
-CHARS = [0, 7, 9, 10, 27, 32, 34, 35, 39, 40, 41, 59, 92, 97, 120, 124, 127, 233, 955, 0x1F600, 0xFFFD, 0x80]
+# every printable ASCII character (each may be special in one of the character syntaxes), controls, and non-ASCII classes
+CHARS = sorted(set([0, 7, 8, 9, 10, 13, 27, 127, 0x80, 0xA0, 233, 955, 0x1F600, 0xFFFD, 0xD7FF, 0xE000, 0x10FFFF] + list(range(32, 127))))
 STR_ALPHABET = [0, 7, 9, 10, 27, 32, 34, 40, 92, 97, 120, 127, 233, 955, 0x1F600]
 
 BYTEVECS = [[], [0], [255], [0, 127, 128], [1, 2, 3, 200]]
